@@ -155,6 +155,10 @@ class RangeNode(OperandNode):
                 row_cells = []
                 for col_addr in range_row:
                     cell = context.eval_cell(col_addr)
+                    if type(cell) in func_xltypes.NATIVE_TO_XLTYPE:
+                        # A function without a return annotation (COUNT,
+                        # COUNTA, ...) hands back a native Python value.
+                        cell = func_xltypes.ExcelType.cast_from_native(cell)
                     if cell.value == '' or cell.value is None:
                         empty_col += 1
                         if empty_col > MAX_EMPTY:
